@@ -472,7 +472,9 @@ impl BitMachine {
 
             Ok(value)
         } else {
-            Ok(Value::unit())
+            // A zero-width type has exactly one value, which is not necessarily `unit`
+            // (e.g. `1 × 1`); return the value of the target type.
+            Ok(Value::zero(&program.arrow().target))
         }
     }
 
